@@ -80,6 +80,9 @@ class EquationSolver(object):
         self.Parser = parser
         # The variable list belongs to the previous set of equations; it is rebuilt on the next solve.
         self.VariableList = []
+        # So do the diagnostic series (step trace, initial steady state search) of an earlier solve.
+        self.TimeSeriesInitialSteadyState = TimeSeriesHolder('k')
+        self.TimeSeriesStepTrace = TimeSeriesHolder('iteration')
         if self.MaxTime is not None:
             self.Parser.MaxTime = self.MaxTime
         if len(msg) > 0:
